@@ -369,7 +369,7 @@ def run(kmax):
         try:
             open(path, "w").write(apply_mutant(src, m))
             for p in m["props"]:
-                rc, out = sh([os.path.join(VERIF, "check"), p], cwd=VERIF, timeout=1800)
+                rc, out = sh([os.path.join(VERIF, "check"), p], cwd=VERIF, timeout=1800, env=dict(os.environ, VERIF_EVIDENCE_DIR="/root/scratch/evidence_patched"))
                 lines = [l for l in out.splitlines() if l.startswith(("VIOLATION", "OK ", "MODEL-ERROR", "INFRA-ERROR"))]
                 r[p] = {"exit": rc, "caught": rc == 1, "with_failing_input": any(l.startswith("VIOLATION") and "no-failing-input-found" not in l for l in lines),
                         "first": lines[0][:200] if lines else out[-200:]}
